@@ -37,6 +37,7 @@ def install(pe):
     E[B + "set"] = lambda pe, a, k: set(pe.hashable(x) for x in pe.iterate(a[0])) if a else set()
     E[B + "frozenset"] = lambda pe, a, k: frozenset(pe.hashable(x) for x in pe.iterate(a[0])) if a else frozenset()
     E[B + "dict"] = lambda pe, a, k: _dict(pe, a, k)
+    E[B + "dict.fromkeys"] = lambda pe, a, k: {pe.hashable(x): (a[1] if len(a) > 1 else None) for x in pe.iterate(a[0])}
     E[B + "sorted"] = lambda pe, a, k: _sorted(pe, a, k)
 
     def _defaultdict(pe, a, k):
@@ -949,6 +950,9 @@ def builtin_method(pe, obj, name, args, kwargs):
             return _squeeze(pe, obj)
         if name == "mean":
             return pe.s_div(_sum(pe, obj.flat(), 0), obj.size)
+        if name == "sort" and len(obj.shape) == 1:   # in place
+            obj[...] = Arr.from_nested(sorted(obj.flat(), key=lambda v: _key(pe, v)))
+            return None
         raise PEError(f"ndarray.{name} not modelled")
     if isinstance(obj, list):
         if name == "append":
